@@ -89,9 +89,9 @@ Proof.
                 | b n p cp | b prefix delim cursor maxres | b | b dst bad srcs dm cp | b1 n1 b2 n2 | b | b | b cp];
     cbn [handle].
   - destruct (resolve_conds s cp); [|exact Hok]. destruct n; [exact Hok|]. apply finish_upload_gens. exact Hok.
-  - destruct (resolve_conds s cp); [|exact Hok]. apply finish_upload_gens. exact Hok.
+  - destruct (resolve_conds s cp); [|exact Hok]. destruct (um_name m); [exact Hok|]. apply finish_upload_gens. exact Hok.
   - destruct (resolve_conds s cp); exact Hok.
-  - destruct (resolve_conds s cp); [|exact Hok]. destruct bad; exact Hok.
+  - destruct (resolve_conds s cp); [|exact Hok]. destruct bad; [exact Hok|]. destruct (um_name m); exact Hok.
   - destruct (alookup id (s_uploads s)) as [u|]; [|exact Hok].
     destruct crange as [cr|]; [|exact Hok].
     destruct (parse_byte_range cr) as [br|]; [|exact Hok].
@@ -125,11 +125,12 @@ Proof.
     + eapply bounded_bucket; eauto.
   - destruct maxres as [ms|].
     + destruct (parse_int ms) as [z|]; [|exact Hok]. destruct (z <? 1); [exact Hok|].
-      destruct (get_bucket s b); [|exact Hok]. destruct (list_walk _ _ _ _ _) as [[f p] m]. exact Hok.
-    + destruct (get_bucket s b); [|exact Hok]. destruct (list_walk _ _ _ _ _) as [[f p] m]. exact Hok.
+      destruct (get_bucket s b); [|exact Hok]. destruct (list_walk _ _ _ _ _) as [[[f p] m] lst]. exact Hok.
+    + destruct (get_bucket s b); [|exact Hok]. destruct (list_walk _ _ _ _ _) as [[[f p] m] lst]. exact Hok.
   - exact Hok.
   - destruct (resolve_conds s cp); [|exact Hok]. destruct bad; [exact Hok|].
     destruct (split _ _) as [|d0 [|d1 [|d2 ds]]]; try exact Hok.
+    destruct d0 as [|d00 d0']; [exact Hok|]. set (d0 := d00 :: d0').
     destruct (_ >? _); [exact Hok|].
     destruct (fold_left _ srcs _) as [[code data]|]; [|exact Hok].
     destruct code; try exact Hok.
@@ -138,6 +139,7 @@ Proof.
   - destruct (contains _ _); [exact Hok|].
     destruct (split _ _) as [|f1 [|rest [|x xs]]]; try exact Hok.
     destruct (split2 _ _) as [|b2' [|f2 [|y ys]]]; try exact Hok.
+    destruct f2 as [|f20 f2']; [exact Hok|]. set (f2 := f20 :: f2').
     destruct (find_obj s b1 f1) as [o|]; [|exact Hok].
     destruct (find_obj _ b2' f2); cbn [fst]; apply store_add_gens; exact Hok.
   - cbn [fst]. unfold gens_bounded. rewrite create_bucket_clock. apply objs_all_create_bucket. exact Hok.
@@ -160,11 +162,11 @@ Proof.
   - destruct (resolve_conds s cp); [|auto]. destruct n; [auto|].
     match goal with |- context [finish_upload ?s1 ?b ?n ?ct ?md ?meta ?d ?c] =>
       destruct (finish_upload_clock s1 b n ct md meta d c) as [[_ H]|[_ H]] end; [auto|rewrite H; auto].
-  - destruct (resolve_conds s cp); [|auto].
+  - destruct (resolve_conds s cp); [|auto]. destruct (um_name m) as [|n0 nm] eqn:En; [auto|]. rewrite <- En.
     match goal with |- context [finish_upload ?s1 ?b ?n ?ct ?md ?meta ?d ?c] =>
       destruct (finish_upload_clock s1 b n ct md meta d c) as [[_ H]|[_ H]] end; [auto|rewrite H; auto].
   - destruct (resolve_conds s cp); auto.
-  - destruct (resolve_conds s cp); [|auto]. destruct bad; auto.
+  - destruct (resolve_conds s cp); [|auto]. destruct bad; [auto|]. destruct (um_name m); auto.
   - destruct (alookup id (s_uploads s)) as [u|]; [|auto].
     destruct crange as [cr|]; [|auto].
     destruct (parse_byte_range cr) as [br|]; [|auto].
@@ -187,11 +189,12 @@ Proof.
     unfold store_put_obj. destruct (get_bucket s b); auto.
   - destruct maxres as [ms|].
     + destruct (parse_int ms) as [z|]; [|auto]. destruct (z <? 1); [auto|].
-      destruct (get_bucket s b); [|auto]. destruct (list_walk _ _ _ _ _) as [[f p] m]. auto.
-    + destruct (get_bucket s b); [|auto]. destruct (list_walk _ _ _ _ _) as [[f p] m]. auto.
+      destruct (get_bucket s b); [|auto]. destruct (list_walk _ _ _ _ _) as [[[f p] m] lst]. auto.
+    + destruct (get_bucket s b); [|auto]. destruct (list_walk _ _ _ _ _) as [[[f p] m] lst]. auto.
   - auto.
   - destruct (resolve_conds s cp); [|auto]. destruct bad; [auto|].
     destruct (split _ _) as [|d0 [|d1 [|d2 ds]]]; auto.
+    destruct d0 as [|d00 d0']; [auto|]. set (d0 := d00 :: d0').
     destruct (_ >? _); [auto|].
     destruct (fold_left _ srcs _) as [[code data]|]; [|auto].
     destruct code; auto.
@@ -200,6 +203,7 @@ Proof.
   - destruct (contains _ _); [auto|].
     destruct (split _ _) as [|f1 [|rest [|x xs]]]; auto.
     destruct (split2 _ _) as [|b2' [|f2 [|y ys]]]; auto.
+    destruct f2 as [|f20 f2']; [auto|]. set (f2 := f20 :: f2').
     destruct (find_obj s b1 f1) as [o|]; [|auto].
     destruct (find_obj _ b2' f2); cbn [fst]; right; apply store_add_clock.
   - cbn [fst]. left. apply create_bucket_clock.
@@ -260,6 +264,7 @@ Proof.
     intros H. apply finish_upload_200 in H. destruct H as [-> _].
     eexists _, _, _. split; [reflexivity|]. rewrite find_obj_store_add_same, store_add_clock. cbn. auto.
   - cbn [handle targets]. destruct (resolve_conds s cp); [|cbn; discriminate].
+    destruct (um_name m) as [|n0 nm] eqn:En; [cbn; discriminate|]. rewrite <- En.
     intros H. apply finish_upload_200 in H. destruct H as [-> _].
     eexists _, _, _. split; [reflexivity|]. rewrite find_obj_store_add_same, store_add_clock. cbn. auto.
   - cbn [handle targets]. destruct (alookup id (s_uploads s)) as [u|]; [|cbn; discriminate].
@@ -412,8 +417,8 @@ Proof.
   - destruct (find_obj s b n); reflexivity.
   - destruct maxres as [ms|].
     + destruct (parse_int ms) as [z|]; [|reflexivity]. destruct (z <? 1); [reflexivity|].
-      destruct (get_bucket s b); [|reflexivity]. destruct (list_walk _ _ _ _ _) as [[f p] m]. reflexivity.
-    + destruct (get_bucket s b); [|reflexivity]. destruct (list_walk _ _ _ _ _) as [[f p] m]. reflexivity.
+      destruct (get_bucket s b); [|reflexivity]. destruct (list_walk _ _ _ _ _) as [[[f p] m] lst]. reflexivity.
+    + destruct (get_bucket s b); [|reflexivity]. destruct (list_walk _ _ _ _ _) as [[[f p] m] lst]. reflexivity.
   - reflexivity.
   - destruct (get_bucket s b); reflexivity.
 Qed.
